@@ -11,6 +11,12 @@ each commit, as they are at the end of the history, still open and show the dump
 that commit.
 
 The real-code runner of this module (`run_ops`) is shared with c03.py.
+
+Ops: `["write", k]` writes the dataset `w<k>`; `["write", k, kind]` with kind g / a / n creates the
+group `g<k>`, sets the root attribute `a<k>`, sets the attribute `a<k>` of the first child (root when
+there is none) — for the record model all of them are "a write with id k into the newest container".
+Class keys: `p` IH5Record, `m` IH5MFRecord, `p+<n>` / `m+<n>` subclasses that add n bytes to the
+documented `ub_exts` section of the user block on commit (for the model: `p` / `m`).
 """
 import gc
 import hashlib
@@ -97,26 +103,76 @@ def exc_name(e):
     return n
 
 
+def _scalar(v):
+    try:
+        return int(v[()]) if hasattr(v, "shape") and not isinstance(v, (int, float)) else int(v)
+    except Exception:
+        return repr(v)
+
+
 def dump(rec):
-    """user-visible content of the record (root level: the harness only writes root datasets)."""
+    """user-visible content of the record: root attributes, root children (the harness only writes at root
+    level: datasets `w<k>`, groups `g<k>`) and their attributes; sorted by key"""
     out = []
-    for k in sorted(rec.keys()):
+    for a in rec.attrs.keys():
+        out.append(["@" + a, _scalar(rec.attrs[a])])
+    for k in rec.keys():
         v = rec[k]
-        try:
-            out.append([k, int(v[()])])
-        except Exception:
-            out.append([k, repr(v)])
-    return out
+        if hasattr(v, "keys"):
+            out.append([k, "group:%d" % len(list(v.keys()))])
+        else:
+            try:
+                out.append([k, int(v[()])])
+            except Exception:
+                out.append([k, repr(v)])
+        for a in v.attrs.keys():
+            out.append([k + "@" + a, _scalar(v.attrs[a])])
+    return sorted(out, key=lambda e: e[0])
+
+
+_ID = re.compile(r"^(?:[wg]\d+@|@)?[wga](\d+)$")
 
 
 def view_ids(rec):
     ids = []
-    for k in rec.keys():
-        if k.startswith("w") and k[1:].isdigit():
-            ids.append(int(k[1:]))
-        else:
-            ids.append(-1)
+    for k, _ in dump(rec):
+        m = _ID.match(k)
+        ids.append(int(m.group(1)) if m else -1)
     return sorted(ids)
+
+
+def write_op(k, kind="d"):
+    return ["write", k] if kind == "d" else ["write", k, kind]
+
+
+def do_write(rec, k, kind):
+    if kind == "d":
+        rec["w%d" % k] = k
+    elif kind == "g":
+        rec.create_group("g%d" % k)
+    elif kind == "a":
+        rec.attrs["a%d" % k] = k
+    elif kind == "n":
+        ks = sorted(rec.keys())
+        (rec[ks[0]] if ks else rec).attrs["a%d" % k] = k
+    else:
+        raise RuntimeError("unknown write kind %r" % (kind,))
+
+
+def expected_dump(writes):
+    """what `dump` shows after the writes [(k, kind)] (in this order) on an empty record"""
+    out = {}
+    for k, kind in writes:
+        if kind == "d":
+            out["w%d" % k] = k
+        elif kind == "g":
+            out["g%d" % k] = "group:0"
+        elif kind == "a":
+            out["@a%d" % k] = k
+        else:
+            ks = sorted(x for x in out if "@" not in x)
+            out[(ks[0] if ks else "") + "@a%d" % k] = k
+    return [[k, v] for k, v in sorted(out.items())]
 
 
 def handle_str(rec):
@@ -146,10 +202,53 @@ def perm_by(items, seed):
     return out
 
 
+def cls_pad(c):
+    """bytes of extra `ub_exts` content of a class key (0 for the two library classes)"""
+    return int(c[2:]) if len(c) > 2 and c[1] == "+" else 0
+
+
+# length of the JSON text of a committed patch's user block written by the library classes
+UB_TEXT = dict(p=287 + 21, m=480 + 23)
+
+
+def pad_classes(k):
+    """pad lengths that put the user-block text of class k into every length class: as is, below / at / just
+    above the 512-byte probe of `load` (text 499), long, close to the reserved 1024 bytes"""
+    return sorted({max(0, t - UB_TEXT[k]) for t in (UB_TEXT[k], 450, 495, 499, 500, 505, 513, 520, 600, 800, 990, 1000)})
+
+
+def gen_pad_len(rng, k):
+    return rng.randrange(0, 1000 - UB_TEXT[k])
+
+
+def _extended(base, n):
+    class Ext(base):
+        """stores provenance-like extra content in the `ub_exts` section when a container is committed
+        (same pattern as IH5MFRecord.commit_patch)"""
+        PAD = ("vt-ext:" + "0123456789abcdef" * (n // 16 + 1))[:n]
+
+        def commit_patch(self, **kwargs):
+            if self._has_writable:
+                ub = self._ublock(-1)
+                self._set_ublock(-1, ub.copy(update={"ub_exts": {**ub.ub_exts, "vt_ext": {"pad": self.PAD}}}))
+            super().commit_patch(**kwargs)
+
+    Ext.__name__ = Ext.__qualname__ = "%sExt%d" % (base.__name__, n)
+    return Ext
+
+
+class _Classes(dict):
+    def __missing__(self, key):
+        if len(key) > 2 and key[0] in "pm" and key[1] == "+" and key[2:].isdigit():
+            self[key] = _extended(self[key[0]], int(key[2:]))
+            return self[key]
+        raise KeyError(key)
+
+
 def classes():
     from metador_core.ih5.record import IH5Record
     from metador_core.ih5.manifest import IH5MFRecord
-    return {"p": IH5Record, "m": IH5MFRecord}
+    return _Classes(p=IH5Record, m=IH5MFRecord)
 
 
 def run_ops(ops, exempt_after_w=True, keep=None):
@@ -189,7 +288,7 @@ def run_ops(ops, exempt_after_w=True, keep=None):
                         last_cls = c
                         rec = cls[c](target, mode)
                 elif kind == "write":
-                    rec["w%d" % op[1]] = op[1]
+                    do_write(rec, op[1], op[2] if len(op) > 2 else "d")
                 elif kind == "read":
                     dmp = dump(rec)
                 elif kind == "create":
@@ -332,12 +431,16 @@ def tags_of(ops, recs):
             seen_commit = True
         if seen_commit and k in ("write", "create", "discard", "merge"):
             tags.add("%s-after-commit" % k)
+        if k == "write" and len(op) > 2:
+            tags.add("write-kind-" + op[2])
         if k == "open":
             tags.add("open-%s-%s" % (op[2], op[3]))
             if op[3] == "l" and len(op) > 5:
                 tags.add("list-%s-%s" % (op[5], op[2]))
-            if op[1] == "m":
+            if op[1][0] == "m":
                 tags.add("mfrecord")
+            if cls_pad(op[1]) or "+" in op[1]:
+                tags.add("extended-ublock-class")
             if "u rw=1" in r["h"] and op[2] in ("r+", "a") and set(r["before"]) == set(r["after"]):
                 tags.add("continue-uncommitted")
         if k == "merge":
@@ -346,7 +449,7 @@ def tags_of(ops, recs):
             tags.add("discard")
         if k == "close" and not op[1]:
             tags.add("close-nocommit")
-    if len({op[1] for op in ops if op[0] == "open"}) > 1:
+    if len({op[1][0] for op in ops if op[0] == "open"}) > 1:
         tags.add("mixed-class")
     return sorted(tags)
 
@@ -361,6 +464,7 @@ def op_line(op):
     k = op[0]
     if k == "open":
         _, c, mode, by, arg = op[:5]
+        c = c[0]  # subclasses with extra user-block content: the plain / manifest class of the model
         if by == "n":
             return "open %s %s n %s" % (c, mode, hx(arg))
         return " ".join(["open", c, mode, "l"] + [hx(a) for a in arg])
@@ -375,7 +479,7 @@ def op_line(op):
     if k == "delete":
         return "delete " + hx(op[1])
     if k == "openperm":
-        return "openperm %s %s %d" % (op[1], op[2], op[3])
+        return "openperm %s %s %d" % (op[1][0], op[2], op[3])
     if k == "restore":
         return "restore"
     raise ValueError(op)
@@ -577,7 +681,20 @@ def gen_file_list(rng, s):
     return kind, out, valid, complete
 
 
-def gen_history(rng, n_ops, with_others=True, allow_merge=True, p_list=0.22):
+KINDS = [("d", 0.5), ("a", 0.25), ("g", 0.1), ("n", 0.15)]
+
+
+def gen_history(rng, n_ops, with_others=True, allow_merge=True, p_list=0.22, kinds=False, ext=False):
+    """`kinds`: writes are datasets, groups, root attributes, attributes of a child (else datasets only);
+    `ext`: the record classes are subclasses with extra user-block content."""
+    ops = _gen_history(rng, n_ops, with_others, allow_merge, p_list, kinds)
+    if ext:
+        m = {k: "%s+%d" % (k, rng.choice(pad_classes(k)) if rng.random() < 0.5 else gen_pad_len(rng, k)) for k in "pm"}
+        ops = [[o[0], m[o[1]]] + list(o[2:]) if o[0] == "open" and rng.random() < 0.85 else o for o in ops]
+    return ops
+
+
+def _gen_history(rng, n_ops, with_others, allow_merge, p_list, kinds):
     ops = []
     s = Sim()
     if with_others and rng.random() < 0.7:
@@ -657,7 +774,14 @@ def gen_history(rng, n_ops, with_others=True, allow_merge=True, p_list=0.22):
             if x <= 0:
                 break
         if name == "write":
-            ops.append(["write", k]); k += 1
+            wk = "d"
+            if kinds:
+                x = rng.random()
+                for wk, w in KINDS:
+                    x -= w
+                    if x <= 0:
+                        break
+            ops.append(write_op(k, wk)); k += 1
         elif name == "commit":
             ops.append(["commit"])
             s.commit()
@@ -724,7 +848,7 @@ def gen_cases(ctx):
     cases = []
     n = 150 if ctx.quick else 3000
     for _ in range(n):
-        cases.append(dict(kind="hist", ops=gen_history(rng, rng.randrange(8, 26))))
+        cases.append(dict(kind="hist", ops=gen_history(rng, rng.randrange(8, 26), kinds=rng.random() < 0.5, ext=rng.random() < 0.2)))
     if ctx.quick:
         # a sample of the short-sequence space
         space = [seq for l in range(1, 4) for seq in itertools.product(ALPHABET, repeat=l)]
@@ -742,7 +866,8 @@ def gen_cases(ctx):
 def run(ctx):
     ctx.rule = ("cases: (hist) random API histories on real IH5Record/IH5MFRecord objects in one temporary directory that also holds "
                 "prefix-related records (fo, foo2, foo-bar): open r/r+/a/x/w- (w only on absent names), write, read, create_patch, commit_patch, "
-                "discard_patch, close(commit yes/no), reopen by name or by an explicit file list (strict prefixes = older commit states, permutations, "
+                "discard_patch (writes = datasets, groups, root attributes, attributes of a child; classes also subclasses with extra ub_exts content), "
+                "close(commit yes/no), reopen by name or by an explicit file list (strict prefixes = older commit states, permutations, "
                 "selections with gaps / without base / with foreign or missing files, merged container + later patches of its source) in every "
                 "mode, merge_files into fresh/existing/own names, calls on closed handles; "
                 "(seq) short call sequences after a committed base. After every call every file is hashed. Non-trivial = tagged: "
